@@ -690,7 +690,9 @@ def pipeline(ctx, vh, rng, n):
     os.environ["VERIF_EXTRA_METATYPES"] = ""
     docs = []
     metas = []
-    strings = ["", "a", "x y", " lead", "trail ", "é", "あい", "a\"b", "<&>'", "\U0001f600", "line\nbreak", "tab\tx", "%1 of %2", "]]>", "&amp;"]
+    strings = ["", "a", "x y", " lead", "trail ", "é", "あい", "a\"b", "<&>'", "\U0001f600", "line\nbreak", "tab\tx", "%1 of %2", "]]>", "&amp;",
+               # control characters NEXT TO characters that need escaping (the two are handled by different layers of the writer)
+               "Tom & Jerry\rline two", "a\r<b>", "x\r\"y\"", "\r&", "it's\r\nhere", "<\r>", "\r", "a\rb"]
     for _ in range(n):
         istr, ival = render_int(const_int(rng))
         s1, s2 = rng.choice(strings), rng.choice(strings)
@@ -734,7 +736,7 @@ def pipeline(ctx, vh, rng, n):
         t = prop("lb", "text")
         if t is not None:
             got = t.text or ""
-            if got != m["text"].replace("\r\n", "\n") or (t.get("notr") == "true") == m["tr"]:
+            if got != m["text"] or (t.get("notr") == "true") == m["tr"]:
                 ctx.violation("string constant embedded as %r (notr=%r); source value %r, translatable=%r" % (got, t.get("notr"), m["text"], m["tr"]),
                               {"case": doc, "impl_output": got, "oracle_output": m["text"]})
         a = prop("lb", "alignment")
